@@ -258,6 +258,7 @@ pub fn run(ctx: &mut Ctx, rep: &mut Report) {
                         wrap_override: None,
                         spare_rows: 0,
                         trimmed_rows: 0,
+                        cloned: 0,
                     };
                     if !crumb(|| wrap("C01", case.json(None))) {
                         continue;
@@ -295,6 +296,7 @@ pub fn run(ctx: &mut Ctx, rep: &mut Report) {
                         wrap_override: None,
                         spare_rows: 0,
                         trimmed_rows: 0,
+                        cloned: 0,
                     };
                     if !crumb(|| wrap("C01", case.json(None))) {
                         continue;
@@ -409,6 +411,7 @@ pub fn run(ctx: &mut Ctx, rep: &mut Report) {
                         wrap_override: None,
                         spare_rows: 0,
                         trimmed_rows: 0,
+                        cloned: 0,
                     };
                     if !crumb(|| wrap("C01", case.json(None))) {
                         continue;
